@@ -345,7 +345,7 @@ static std::vector<Violation> case_c16(const Plan& p, CaseCtx& cx)
             std::vector<int> traced, called;
             const ref::GrammarSpec& g = oC.model->g;
             for (const TraceLine& t : tl)
-                if (t.k == TraceLine::REDUCE && t.n >= 0 && size_t(t.n) < g.rules.size() && (g.rules[size_t(t.n)].ftor == ref::F_PLAIN || g.rules[size_t(t.n)].ftor == ref::F_CTX)) traced.push_back(int(t.n));
+                if (t.k == TraceLine::REDUCE && t.n >= 0 && size_t(t.n) < g.rules.size() && (g.rules[size_t(t.n)].ftor == ref::F_PLAIN || g.rules[size_t(t.n)].ftor == ref::F_CTX || g.rules[size_t(t.n)].ftor == ref::F_TOKREF)) traced.push_back(int(t.n));
             for (const auto& rd : oC.rec.reds) called.push_back(rd.rule);
             if (traced != called)
             {
